@@ -145,7 +145,7 @@ func (ex *Exec) effectsOf(fr *Frame, blocks map[*ssa.BasicBlock]bool) *loopEffec
 			if len(con.Modifies) == 0 {
 				return
 			}
-			// conservatively: everything the modifies clauses could touch
+			// conservatively: everything (a loop-level modifies clause makes this precise)
 			ef.heapAll = true
 			ef.why = append(ef.why, "call to "+full+" with modifies")
 			return
@@ -231,6 +231,8 @@ func (ex *Exec) enterLoop(fr *Frame, h *ssa.BasicBlock, in *State) *State {
 			var fs []*Term
 			st.cells[a] = freshVal(elemOfPtr(a.Type()), "l."+a.Comment, &fs)
 			ex.addFacts(nil, fs)
+			ex.assumeOlder(st.cells[a])
+			ex.assumeSealed(st.cells[a], elemOfPtr(a.Type()))
 			if a.Comment == "rangeindex" {
 				// go/ssa lowers range-over-slice to an index cell that starts at -1 and is only incremented
 				ex.fact(nil, Ge(st.cells[a].(*Term), IntT(-1)))
@@ -253,6 +255,7 @@ func (ex *Exec) enterLoop(fr *Frame, h *ssa.BasicBlock, in *State) *State {
 			st.heap.set(n, Fresh(n+"@loop", s))
 		}
 	}
+	fr.headNew[ord] = ex.nextObj
 	r := Fresh("inloop", SBool)
 	ex.fact(nil, Implies(r, in.reach))
 	st.reach = r
@@ -283,6 +286,10 @@ func (ex *Exec) backEdge(fr *Frame, from, h *ssa.BasicBlock, st *State) {
 	}
 	for _, cl := range spec.BodyEnsures {
 		ex.oblige(fr, st, fmt.Sprintf("loop%d.body", ord), cl.Label, env.evalBool(cl.Text), pos, cl.Text)
+	}
+	if len(spec.Modifies) > 0 {
+		henv := ex.loopEnv(fr, h, fr.headSnap[ord])
+		ex.frameObligations(fr, fmt.Sprintf("loop%d.frame", ord), fr.headSnap[ord], st, spec.Modifies, henv, fr.headNew[ord])
 	}
 	if spec.Decreases != nil {
 		now := env.evalAny(spec.Decreases.Text).(*Term)
